@@ -37,7 +37,7 @@ MUTS = {
                                                  (I, REC, "        return infer_redirection(target, recursive=True, _inner=True)\n")], True),
     "S6-cache-branch-reads-the-raw-target": ([(I, "    redirection_split = REDIRECTION_DOMAINS_RE.split(url, 1)\n",
                                                "    redirection_split = REDIRECTION_DOMAINS_RE.split(original_url.strip(), 1)\n")], True),
-    "S7-control-class-one-short": ([(P, r'CONTROL_CHARS_RE = re.compile(r"[\x00-\x1f\x7f-\x9f]")', r'CONTROL_CHARS_RE = re.compile(r"[\x00-\x1f\x7f-\x9e]")')], "obligation"),
+    "S7-control-class-one-short": ([(P, r'CONTROL_CHARS_RE = re.compile(r"[\x00-\x1f\x7f-\x9f]")', r'CONTROL_CHARS_RE = re.compile(r"[\x00-\x1f\x7f-\x9e]")')], True),  # + obligation cleaning_class_unchanged broken
     # harmless
     "H1-class-respelled": ([(P, r'CONTROL_CHARS_RE = re.compile(r"[\x00-\x1f\x7f-\x9f]")', r'CONTROL_CHARS_RE = re.compile(r"[\x00-\x1F\x7F-\x84\x85-\x9F]")')], False),
     "H2-clean-helper-called-at-every-hop": ([(I, "def infer_redirection(url, recursive=True):\n",
